@@ -40,7 +40,7 @@ PROPS = {
     ),
 }
 
-ENGINES = {'e2e': vlib.e2e_engine, 'store': vlib.store_engine, 'atomic': vlib.atomic_engine, 'encrypt': vlib.encrypt_engine, 'swr': vlib.swr_engine, 'conc': vlib.conc_engine, 'bytes': vlib.bytes_engine, 'lateinval': vlib.lateinval_engine, 'overlap': vlib.overlap_engine}
+ENGINES = {'e2e': vlib.e2e_engine, 'store': vlib.store_engine, 'atomic': vlib.atomic_engine, 'encrypt': vlib.encrypt_engine, 'swr': vlib.swr_engine, 'conc': vlib.conc_engine, 'bytes': vlib.bytes_engine, 'lateinval': vlib.lateinval_engine, 'overlap': vlib.overlap_engine, 'realclock': vlib.realclock_engine}
 
 
 def _e2e(profiles, monitors, projection, nq=1500, nt=20000, extra=None):
@@ -143,3 +143,7 @@ PROPS['C18']['e2e'][0]['faults'] = True
 PROPS['C18']['rule'] = E2E_RULE + '; every generated history is run again with store operations failing (plans as for C10): mon_C18 on what the implementation did'
 # C03: the method / Range gate needs Range requests in the histories that hit; C19: invalidation through Location / Content-Location
 PROPS['C19']['e2e'].append(dict(profile='inval', n_quick=500, n_thorough=5000))
+
+PROPS['C01']['engines'] = ['e2e', 'realclock']
+PROPS['C01']['rule'] += ('; plus TestRealClock: responses received with a saturating Age (2^63 ns and more) and a stale-while-revalidate / max-age / request max-stale / min-fresh '
+                         'combination, requested again with the real clock (between two clock readings of one RoundTrip a few nanoseconds pass, which inside the virtual-time bubble they do not)')
